@@ -62,6 +62,59 @@ WITNESS = {
 }
 
 
+def lossy_in_fn(db, rep, f, table, used_table):
+    """R-LOSSY over one function: every narrowing integer cast whose value reaches a file sink must be discharged or audited.
+    -> (casts inspected, write-primitive call sites)"""
+    n_casts = n_writes = 0
+    rep.fn(f)
+    for _, t in f.calls():
+        if lossy.WRITE_PRIM.match(t.get("f", "")):
+            n_writes += 1
+    defs = None
+    ordinal = {}
+    for bi, si, s, a, c in lossy.narrowing_casts(db, f):
+        n_casts += 1
+        rep.site()
+        if defs is None:
+            defs = lossy.defs_of(f)
+        k = "%s|%s->%s" % (f.id, a, c)
+        ordinal[k] = ordinal.get(k, 0) + 1
+        key = "%s|%d" % (k, ordinal[k])
+        loc = "%s:%d" % (f.file, s["ln"])
+        sinks = lossy.forward_sinks(db, f, place_local(s["d"]), bi)
+        if not sinks:
+            continue      # value never reaches a file sink (spans, indices, comparisons)
+        sink_txt = "; ".join(sorted(set(x[1] for x in sinks)))[:200]
+        dis = lossy.discharge(db, f, bi, si, s, defs)
+        if dis is None:
+            src = op_local(s["o"])
+            prov = lossy.provenance(db, f, src, defs) if src is not None else {"other"}
+            if prov and prov <= {"bool", "const"}:
+                dis = ("bool", "source is a bool / constant")
+            elif prov and prov <= {"enum", "const"}:
+                dis = ("enum", "source is an enum discriminant")
+            elif lossy.BITS[c] >= 32 and lossy.BITS[a] == 64:
+                dis = ("size32", "64-bit quantity (this crate uses 64-bit integers only for stream positions and in-memory sizes; script values are i32/f32) narrowed to a 32-bit field: needs >= 4 GiB of data; provenance %s" % sorted(prov))
+        if dis is not None:
+            rep.ok("R-LOSSY", key, loc, "%s -> %s, %s: discharged (%s: %s)" % (a, c, sink_txt, dis[0], dis[1]))
+            continue
+        ent = table.get(key)
+        if ent is not None:
+            used_table.add(key)
+            w = ent.get("witness")
+            if w is None or WITNESS[w](db):
+                rep.ok("R-LOSSY", key, loc, "%s -> %s, %s: audited: %s" % (a, c, sink_txt, ent["reason"]))
+            else:
+                rep.bad("R-LOSSY", key, loc, "%s -> %s, %s: audited entry's witness '%s' no longer holds (%s)" % (a, c, sink_txt, w, ent["reason"]))
+            continue
+        rep.bad("R-LOSSY", key, loc, "unchecked narrowing %s -> %s of a value that is %s" % (a, c, sink_txt))
+    return n_casts, n_writes
+
+
+def load_table():
+    return json.load(open(os.path.join(VERIF, "engine", "tables", "c03_lossy_audit.json")))["entries"]
+
+
 def run(db, tier):
     rep = Report("C03", tier, EXPLANATION, RULE)
     rep.rule("R-LOSSY", "a narrowing cast that reaches the output file must be range-checked (or provably fits)")
@@ -83,48 +136,9 @@ def run(db, tier):
         root = f.parent or f.id
         if not (f.id in W or root in W):
             continue
-        rep.fn(f)
-        for _, t in f.calls():
-            if lossy.WRITE_PRIM.match(t.get("f", "")):
-                n_writes += 1
-        defs = None
-        ordinal = {}
-        for bi, si, s, a, c in lossy.narrowing_casts(db, f):
-            n_casts += 1
-            rep.site()
-            if defs is None:
-                defs = lossy.defs_of(f)
-            k = "%s|%s->%s" % (f.id, a, c)
-            ordinal[k] = ordinal.get(k, 0) + 1
-            key = "%s|%d" % (k, ordinal[k])
-            loc = "%s:%d" % (f.file, s["ln"])
-            sinks = lossy.forward_sinks(db, f, place_local(s["d"]), bi)
-            if not sinks:
-                continue      # value never reaches a file sink (spans, indices, comparisons)
-            sink_txt = "; ".join(sorted(set(x[1] for x in sinks)))[:200]
-            dis = lossy.discharge(db, f, bi, si, s, defs)
-            if dis is None:
-                src = op_local(s["o"])
-                prov = lossy.provenance(db, f, src, defs) if src is not None else {"other"}
-                if prov and prov <= {"bool", "const"}:
-                    dis = ("bool", "source is a bool / constant")
-                elif prov and prov <= {"enum", "const"}:
-                    dis = ("enum", "source is an enum discriminant")
-                elif lossy.BITS[c] >= 32 and lossy.BITS[a] == 64:
-                    dis = ("size32", "64-bit quantity (this crate uses 64-bit integers only for stream positions and in-memory sizes; script values are i32/f32) narrowed to a 32-bit field: needs >= 4 GiB of data; provenance %s" % sorted(prov))
-            if dis is not None:
-                rep.ok("R-LOSSY", key, loc, "%s -> %s, %s: discharged (%s: %s)" % (a, c, sink_txt, dis[0], dis[1]))
-                continue
-            ent = table.get(key)
-            if ent is not None:
-                used_table.add(key)
-                w = ent.get("witness")
-                if w is None or WITNESS[w](db):
-                    rep.ok("R-LOSSY", key, loc, "%s -> %s, %s: audited: %s" % (a, c, sink_txt, ent["reason"]))
-                else:
-                    rep.bad("R-LOSSY", key, loc, "%s -> %s, %s: audited entry's witness '%s' no longer holds (%s)" % (a, c, sink_txt, w, ent["reason"]))
-                continue
-            rep.bad("R-LOSSY", key, loc, "unchecked narrowing %s -> %s of a value that is %s" % (a, c, sink_txt))
+        nc, nw = lossy_in_fn(db, rep, f, table, used_table)
+        n_casts += nc
+        n_writes += nw
     rep.floor("narrowing casts in writer-reachable code", n_casts, 60)
     rep.floor("write-primitive call sites", n_writes, 150)
     rep.extra["narrowing_casts_inspected"] = n_casts
